@@ -117,6 +117,12 @@ impl SecondaryStorage {
             dvs_to_open.len()
         );
 
+        // DVs of RowSets that no longer exist have no effect (older versions left such records
+        // behind after compaction)
+        dvs_to_open.retain(|(table_id, rowset_id, _), _| {
+            rowsets_to_open.contains_key(&(*table_id, *rowset_id))
+        });
+
         let mut changeset = vec![];
 
         if !options.disable_all_disk_operation {
